@@ -9,3 +9,4 @@ import SJ.Props.C16
 #print axioms SJ.Props.C16.c16_enum_single_key
 #print axioms SJ.Props.C16.c16_option
 #print axioms SJ.Props.C16.c16_routing_tied
+#print axioms SJ.Props.C16.c16_result_comparator_exact
